@@ -13,6 +13,7 @@ import subprocess
 import time
 
 import vlib
+from props import _c18x
 
 LEVEL = "proof"
 ASSUMPTIONS = [
@@ -93,6 +94,7 @@ class Gen:
         self.r = ctx.rng
         self.cases = []
         self.hist = {}
+        self.thorough = ctx.tier == "thorough"
         self.hashed = {}      # sha256 inputs used by address cases -> digest
         self.notes = {}
 
@@ -357,6 +359,18 @@ class Gen:
             body = "".join(r.choice(B58) for _ in range(22))
             data = ("V" + B58[m - 1] + B58[n - 1] + body).encode()
             valid.append(data + py_b58(sha(data))[:4].encode() + b"0")
+        # multisig texts with correct checksums for (m, n) digit pairs (m != n included, valid and invalid
+        # combinations): quick = boundary digits, thorough = all 58 x 58 pairs
+        digs = range(1, 59) if self.thorough else (1, 2, 3, 29, 57, 58)
+        npairs = 0
+        for m in digs:
+            for n in digs:
+                body = "".join(r.choice(B58) for _ in range(22))
+                data = ("V" + B58[m - 1] + B58[n - 1] + body).encode()
+                a = data + py_b58(sha(data))[:4].encode() + b"0"
+                self.add("addrstr", hx(a), self.shapair(a[:25]))
+                npairs += 1
+        self.note("address: multisig (m,n) digit pairs with correct checksum", npairs)
         for a in valid:
             self.add("addrstr", hx(a), self.shapair(a[:25]))
         ncorr = 0
@@ -519,6 +533,12 @@ def run(ctx):
         ctx.sample({"case": [c[0], c[1], [x[:80] for x in c[2]]], "model": (mres.get(c[0]) or "")[:120],
                     "impl": (ires.get(c[0]) or "")[:120]})
     ctx.cov["disagreements_checked"] = len(cases)
+    # DESIGN 6: the extracted OCaml model is cross-checked against vm_compute on the Gallina definitions
+    # themselves, on a sample of this run's own cases (a difference is a machinery error, not a violation)
+    t0 = time.time()
+    nx, xbad = _c18x.crosscheck(ctx, cases, mres, 400 if thorough else 40)
+    ctx.cov["input_distribution"]["seconds_extraction_crosscheck"] = round(time.time() - t0, 2)
+    ctx.cov.setdefault("extraction_crosschecked", 0)
     # sha256 values fed to the model are the library's
     if g.hashed:
         hin = os.path.join(ctx.work, "sha.txt")
@@ -561,6 +581,8 @@ def run(ctx):
     tb = ctx.cov.setdefault("trusted_base", [])
     tb.append("sha256: Section variable of the address theorems; values supplied per case and cross-checked against the library")
     tb.append("tools/gen_text_tables.py: regex parse of the C++ initialisers (fails closed), output coq/Gen/TextTables.v")
+    tb.append("extraction: %d sampled cases of this run re-evaluated in Coq (vm_compute on the Gallina definitions, generated "
+              "cases.v) and compared with the extracted OCaml model" % ctx.cov.get("extraction_crosschecked", 0))
     tb.append("modelled, not verified: the compiled C++ itself (tied to the models only by this run's comparison)")
     if thorough and not ctx.replay:
         t0 = time.time()
